@@ -95,6 +95,7 @@ End SE.
 Section DE.
 Variables (nt : nat) (x : list D) (secs : list (nat * list stretch)) (tas : list D).
 Variables (Tref ginv : list (list D)) (c273 : D) (st ast svf avf rst rast svb avb WFp WBp IF IB : list (list D)) (fx : fixrec).
+Variables (ms : list (stretch * stretch * bool)) (W1p W2p W3p : list (list D)).   (* matching sections; inflated weights of EQ1 / EQ2 / EQ3 rows *)
 Variables (yimpl wimpl pval : list D) (pcov : list (list D)).
 Let xsQ := map D2Q x.
 Let nx := length x.
@@ -102,15 +103,29 @@ Let nta := length tas.
 Let locs := loc_bath xsQ secs.
 Let ixsec := map fst locs.
 Let i0 := hd 0%nat ixsec.
-Let alpha_locs := filter (fun i => negb (Nat.eqb i i0)) ixsec.
+Let pairs := match_pairs xsQ ms.
+Let hts := map fst pairs ++ map snd pairs.
+Let calmatch := uniq_sorted (ixsec ++ hts).
+Let alpha_locs := filter (fun i => negb (Nat.eqb i i0)) (if Nat.eqb (length pairs) 0 then ixsec else calmatch).
+Let notcal := filter (fun i => negb (memb i ixsec)) (uniq_sorted hts).
 Let cols := cols_de nt nta alpha_locs.
 Let cols' := filter (fun a => negb (isfx fx a)) cols.
 Let lay := layout_de (Z.of_nat nt) (Z.of_nat nx) (Z.of_nat nta).
 Let a2 := @at2 D dzero.
-Let full : list drow := @de_rows_FB D dopp done dzero nt locs (acting x tas) ginv IF IB nta i0 (a2 WFp) (a2 WBp).
+Let act := acting x tas.
+Let full : list drow :=
+  @de_rows_FB D dopp done dzero nt locs act ginv IF IB nta i0 (a2 WFp) (a2 WBp) ++
+  @de_rows_match D dopp dsub done dzero nt act IF IB dhalf nta i0 pairs notcal (a2 W1p) (a2 W2p) (a2 W3p) (dmul dhalf).
+Let rvF (i t : nat) := rawvar (a2 st i t) (a2 ast i t) (a2 svf i t) (a2 avf i t).
+Let rvB (i t : nat) := rawvar (a2 rst i t) (a2 rast i t) (a2 svb i t) (a2 avb i t).
+Let rsum (a b : D * D) : D * D := (dadd (dmul (fst a) (snd b)) (dmul (fst b) (snd a)), dmul (snd a) (snd b)).
 Let raws : list (D * D) :=
-  flat_map (fun ib => map (fun t => rawvar (a2 st (fst ib) t) (a2 ast (fst ib) t) (a2 svf (fst ib) t) (a2 avf (fst ib) t)) (seq 0 nt)) locs ++
-  flat_map (fun ib => map (fun t => rawvar (a2 rst (fst ib) t) (a2 rast (fst ib) t) (a2 svb (fst ib) t) (a2 avb (fst ib) t)) (seq 0 nt)) locs.
+  flat_map (fun ib => map (fun t => rvF (fst ib) t) (seq 0 nt)) locs ++
+  flat_map (fun ib => map (fun t => rvB (fst ib) t) (seq 0 nt)) locs ++
+  flat_map (fun pr => map (fun t => rsum (rvF (fst pr) t) (rvF (snd pr) t)) (seq 0 nt)) pairs ++
+  flat_map (fun pr => map (fun t => rsum (rvB (fst pr) t) (rvB (snd pr) t)) (seq 0 nt)) pairs ++
+  (* var((I_B - I_F)/2) = (var_F + var_B)/4 *)
+  flat_map (fun i => map (fun t => let v := rsum (rvF i t) (rvB i t) in (fst v, dmul (4, 0) (snd v))) (seq 0 nt)) notcal.
 Let allp : list param :=
   Gamma :: map DF (seq 0 nt) ++ map DB (seq 0 nt) ++ map Alpha (seq 0 nx)
   ++ flat_map (fun k => map (TAF k) (seq 0 nt) ++ map (TAB k) (seq 0 nt)) (seq 0 nta).
